@@ -116,8 +116,10 @@ func VT_C05_Scalars() {
 // ---- nested message group: default_foreign_message {c, d} ----
 var nestedUpdateMasks = []*M{nil, vth.Mask("default_foreign_message"), vth.Mask("default_foreign_message.c"), vth.Mask("default_foreign_message.d"),
 	vth.Mask("default_foreign_message.c", "default_foreign_message.d"), vth.Mask("default_foreign_message", "default_foreign_message.c"),
-	vth.Mask("default_int64"), vth.Mask("default_foreign_message.bogus")}
-var nestedUpdateValid = []bool{true, true, true, true, true, true, true, false}
+	vth.Mask("default_int64"), vth.Mask("default_foreign_message.bogus"),
+	vth.Mask("default_foreign_message", "default_foreign_message.c", "default_foreign_message.d"),
+	vth.Mask("default_foreign_message.d", "default_foreign_message.c", "default_foreign_message")}
+var nestedUpdateValid = []bool{true, true, true, true, true, true, true, false, true, true}
 var nestedWritable = []*M{nil, vth.Mask("default_foreign_message"), vth.Mask("default_foreign_message.c"), vth.Mask("default_int64")}
 
 func fc(m *testproto.TestAllTypes) int32 { return m.GetDefaultForeignMessage().GetC() }
